@@ -37,7 +37,7 @@ def main():
     from contracts.utils_c import sl
     from contracts.base import JT
     from contracts.tree import SL, TL, TAg, NW, tight, body, ser
-    from contracts.reader_c import clean, CLN, NT
+    from contracts.reader_c import clean, CLN, NT, CLEANSRC, closer5
     from pyvc.sorts import Tok, pystr, Str, E, ESeq
     env = dict(globals()); env.update(locals())
     env['C'] = lambda n: cs[n]
